@@ -9,10 +9,14 @@ import SqlLineage.IO.Graph
 import SqlLineage.IO.Sql
 import SqlLineage.IO.PathSec
 import SqlLineage.IO.Names
+import SqlLineage.IO.Segments
 
 open Lean
 
 def handlers : List (String × (Json → Except String Json)) := [
+  ("seglist", SqlLineage.IO.Segments.handleSegList),
+  ("identbatch", SqlLineage.IO.Segments.handleIdentBatch),
+  ("splitkeep", SqlLineage.IO.Segments.handleSplitKeep),
   ("cfg", SqlLineage.IO.Config.handleCfg),
   ("cfgmicro", SqlLineage.IO.Config.handleMicro),
   ("cfgexpand", SqlLineage.IO.Config.handleExpand),
